@@ -398,6 +398,11 @@ var c06GopkgSuffixes = []string{".v0", ".v1", ".v2", ".v3", ".v10", ".v184467440
 	"/v2", ".v1/v2", ".v2.v3", "-unstable", ".v1-unstable.v2", "v1", ".v1/x", ".v+1", ".v-1", ".v\uff11", "..v1"}
 
 func runC06(c *mon.Ctx) {
+	if strings.HasPrefix(c.ReplayCase, coldChildPrefix) {
+		coldStartChild(c)
+		return
+	}
+	coldStart(c, "C06")
 	r := c.Rng
 	okMod, okImp, okFile := c06OK(refpath.Module), c06OK(refpath.Import), c06OK(refpath.File)
 	modElem := func() string { return gen.Elem(r, gen.ModuleElemAlphabet, 8, okMod) }
